@@ -257,6 +257,71 @@ def c19_7(ctx):
     return out
 
 
+def c19_8(ctx):
+    """compact-size prefixes of the P2P messages are canonical: encode_varint partitions [0, 2^64) at 0xfd / 0x10000 /
+    0x100000000 exactly as read_varint reads them back (same rule as C04.3, shared helper)"""
+    from rules.C04 import c04_3
+    return c04_3(ctx)
+
+
+def c19_9(ctx):
+    """constructor arguments reach the wire unchanged: an integer field of a message (start height, nonce, timestamp,
+    services, version …) whose domain contains 0 must not be replaced by a default through a truthiness test
+    (`x or default`, `if not x:`); `None` is the only legitimate "not given" marker"""
+    out = []
+    n_fields = 0
+    for modname in ("network", "compactfilter"):
+        mod = ctx.repo.module(modname)
+        for cname, cdef in mod.classes.items():
+            mro = ctx.repo.mro(modname, cname) if hasattr(ctx.repo, "mro") else [(modname, cname)]
+            init = ser = None
+            for mm, cc in mro:
+                m2 = ctx.repo.module(mm)
+                init = init or m2.functions.get(cc + ".__init__")
+                ser = ser or m2.functions.get(cc + ".serialize")
+            if init is None or ser is None:
+                continue
+            # integer fields written by serialize: int_to_little_endian(self.f, w) / int_to_big_endian / to_bytes
+            ints = set()
+            for c in ast.walk(ser):
+                if isinstance(c, ast.Call) and call_name(c) in ("int_to_little_endian", "int_to_big_endian", "encode_varint") and c.args:
+                    d = dotted(c.args[0])
+                    if d and d.startswith("self."):
+                        ints.add(d[5:])
+                elif isinstance(c, ast.Call) and isinstance(c.func, ast.Attribute) and c.func.attr == "to_bytes" and dotted(c.func.value) and dotted(c.func.value).startswith("self."):
+                    ints.add(dotted(c.func.value)[5:])
+            ps = set(param_names(init)[1:])
+            imod = ctx.repo.module(modname)
+            for st in ast.walk(init):
+                if isinstance(st, ast.Assign) and len(st.targets) == 1 and isinstance(st.targets[0], ast.Attribute) and dotted(st.targets[0].value) == "self" \
+                        and st.targets[0].attr in ints:
+                    n_fields += 1
+                    v = st.value
+                    bad = None
+                    if isinstance(v, ast.BoolOp) and isinstance(v.op, ast.Or) and isinstance(v.values[0], ast.Name) and v.values[0].id in ps:
+                        bad = v.values[0].id
+                    elif isinstance(v, ast.IfExp):
+                        t = v.test.operand if isinstance(v.test, ast.UnaryOp) and isinstance(v.test.op, ast.Not) else v.test
+                        if isinstance(t, ast.Name) and t.id in ps:
+                            bad = t.id
+                    if bad:
+                        out.append(ctx.bad("%s:%s.__init__" % (modname, cname), "the integer field `%s` is defaulted by the truthiness of `%s` (`%s`): the legitimate value 0 is "
+                                           "replaced by the default and another number goes on the wire" % (st.targets[0].attr, bad, ast.unparse(v)), st, imod,
+                                           key="falsy-default:%s.%s" % (cname, st.targets[0].attr)))
+            # statement form: `if not x: x = default` / `if not x: self.f = default`
+            for n in cfg_of(init).tests():
+                t = n.ast
+                if isinstance(t, ast.Name) and t.id in ps and t.id in ints:
+                    out.append(ctx.bad("%s:%s.__init__" % (modname, cname), "the integer argument `%s` is tested for truthiness: 0 is treated as absent" % t.id, t, imod,
+                                       key="falsy-default:%s.%s" % (cname, t.id)))
+    if not n_fields:
+        raise AnalysisError("no integer message field assigned in a constructor was found")
+    if not out:
+        out.append(ctx.ok("network+compactfilter:*.__init__", "no integer message field is defaulted through a truthiness test (%d field assignments inspected)" % n_fields,
+                          key="falsy-default"))
+    return out
+
+
 OBLIGATIONS = [
     ("C19.1", "GUARD", c19_1),
     ("C19.2", "GUARD", c19_2),
@@ -264,5 +329,7 @@ OBLIGATIONS = [
     ("C19.4", "TABLE registry", c19_4),
     ("C19.5", "LAYOUT vs spec", c19_5),
     ("C19.7", "TABLE", c19_7),
+    ("C19.8", "RANGE partition+agreement", c19_8),
+    ("C19.9", "DATAFLOW", c19_9),
 ]
 FLOORS = {"C19.1": 3, "C19.3": 5, "C19.4": 10, "C19.5": 25, "C19.7": 7}
